@@ -63,6 +63,10 @@ func init() {
 			if len(call.Args) >= 2 {
 				fv.decodeInto(st, call.Args[1])
 			}
+			// observable through the function-level ghost counter bpfLookups, when declared
+			if cur, ok := st.ghost["bpfLookups"]; ok && !st.dead() {
+				st.ghost["bpfLookups"] = fv.c.Let("ghost_bpfLookups", smt.Add(cur, smt.IntLit(1)))
+			}
 			if name == "LookupAndDelete" {
 				if cur, ok := st.ghost["bpfDeletes"]; ok && !st.dead() {
 					st.ghost["bpfDeletes"] = fv.c.Let("ghost_bpfDeletes", smt.Add(cur, smt.IntLit(1)))
